@@ -343,8 +343,10 @@ def run_main(pid, tier):
         "assumptions": getattr(mod, "ASSUMPTIONS", []), "wall_s": round(wall, 2),
         "violations": len(vio_lines),
     }
-    os.makedirs(os.path.join(ROOT, "evidence"), exist_ok=True)
-    with open(os.path.join(ROOT, "evidence", f"{pid}.json"), "w") as f:
+    # runs against a mutated scratch copy (sensitivity experiments) must not overwrite the real evidence
+    evdir = "evidence" if os.path.realpath(os.environ.get("VERIF_REPO", "/repo")) == "/repo" else ".scratch-evidence"
+    os.makedirs(os.path.join(ROOT, evdir), exist_ok=True)
+    with open(os.path.join(ROOT, evdir, f"{pid}.json"), "w") as f:
         json.dump(evidence, f, indent=1, default=_json_default)
 
     print(f"{pid} {tier} seed={seed}: evaluations={ev} distinct_nontrivial={len(nontrivial)} "
